@@ -456,8 +456,13 @@ func setMapField(field reflect.Value, fieldType reflect.Type, isPtr bool, mapArr
 		if err := setFieldFromArrow(k, fieldType.Key(), keys, int(start)+j, tagInfo{}); err != nil {
 			return fmt.Errorf("map key [%d]: %w", j, err)
 		}
-		if err := setFieldFromArrow(v, fieldType.Elem(), items, int(start)+j, tagInfo{}); err != nil {
-			return fmt.Errorf("map value [%d]: %w", j, err)
+		// A null item stays at the zero value (nil for a pointer value type),
+		// as for list elements and struct children; decoding the null slot
+		// would turn a nil pointer into a pointer to a zero value.
+		if !items.IsNull(int(start) + j) {
+			if err := setFieldFromArrow(v, fieldType.Elem(), items, int(start)+j, tagInfo{}); err != nil {
+				return fmt.Errorf("map value [%d]: %w", j, err)
+			}
 		}
 		m.SetMapIndex(k, v)
 	}
